@@ -16,6 +16,8 @@ def prove(ctx):
 
 def correspond(ctx):
     _sched.run(ctx, PROP, GEN, RULE, 1500, 25000)
+    # jobs taken back from an earlier run (exit code not retrievable): final states must stay truthful
+    _sched.restart_part(ctx, PROP, ctx.scale(300, 3000))
 
 
 def search(ctx):
